@@ -31,7 +31,8 @@ WMODES_T = [dict(mode=m, with_unchanged=w) for m in ("default", "hash_only", "me
 
 def cubes_walk(tier):
     if tier == "quick":
-        return [dict(akind=p, nchildren=1, **m) for p in PAIRS_Q for m in WMODES_Q]
+        return [dict(akind=p, nchildren=1, **m) for p in PAIRS_Q for m in WMODES_Q] + \
+               [dict(akind=["dirh", "dirh"], nchildren=1, mode=m, with_unchanged=False) for m in ("default", "meta_only")]
     return [dict(akind=p, nchildren=1, **m) for p in PAIRS_T for m in WMODES_T] + \
            [dict(akind=p, nchildren=2, **m) for p in (["dirh", "dirh"], ["dir", "dirh"], ["absent", "dir"]) for m in WMODES_Q]
 
